@@ -389,6 +389,9 @@ fn c11(ck: &mut Check) {
     let mut a = Acc::new();
     let rep = crate::m_quals::size_ladder(ck.tier, None, &mut a);
     ck.add_stage(a, rep);
+    let mut a = Acc::new();
+    let rep = crate::m_quals::bulk_sizes(ck.tier, &mut a);
+    ck.add_stage(a, rep);
 }
 
 pub fn prop_static(p: &str) -> &'static str {
@@ -477,6 +480,7 @@ pub fn replay_case(prop: &'static str, case: &Value) -> Option<Vec<Violation>> {
         },
         "quals-bfs" => return crate::xstate::replay(&crate::m_quals::QModel::new(Tier::Thorough, false), case).or_else(|| crate::xstate::replay(&crate::m_quals::QModel::new(Tier::Quick, false), case)),
         "quals-typed-bfs" => return crate::xstate::replay(&crate::m_quals::QModel::new(Tier::Quick, true), case),
+        "quals-bulk" => return crate::m_quals::replay_bulk(case),
         "quals-ladder" => return crate::m_quals::replay_ladder(case),
         "quals-typed-others-bfs" => return crate::xstate::replay(&crate::m_quals::QModel::new_typed_others(), case),
         #[cfg(purl_verif)]
@@ -563,12 +567,12 @@ pub fn plans_for(prop: &str, tier: Tier) -> Vec<Plan> {
     let all = lens::all_lenses();
     let pick = |names: &[&str]| -> Vec<Lens> { names.iter().map(|n| lens::lens(n)).collect() };
     let base: Vec<Lens> = match prop {
-        "C07" => pick(&["A3", "A1a", "A1b", "A12"]),
-        "C13" => pick(&["A2-", "A1a", "A1b", "A3", "A4", "A5a", "A5b", "A6", "A10", "A12"]),
-        "C12" => pick(&["A6"]),
-        "C16" => pick(&["A1b", "A2-", "A2s", "A4", "A5b", "A6", "A7", "A10", "A12", "A13"]),
-        "C08" => pick(&["A7", "A2-", "A1b", "A10", "A12", "A13"]),
-        "C18" => pick(&["A7", "A12"]),
+        "C07" => pick(&["A3", "A1a", "A1b", "A12", "A16"]),
+        "C13" => pick(&["A2-", "A1a", "A1b", "A3", "A4", "A5a", "A5b", "A6", "A10", "A12", "A14a", "A14b"]),
+        "C12" => pick(&["A6", "A14a", "A14b"]),
+        "C16" => pick(&["A1b", "A2-", "A2s", "A4", "A5b", "A6", "A7", "A10", "A12", "A13", "A14a", "A14b", "A15"]),
+        "C08" => pick(&["A7", "A2-", "A1b", "A10", "A12", "A13", "A16"]),
+        "C18" => pick(&["A7", "A12", "A16"]),
         _ => all.clone(),
     };
     let mut plans: Vec<Plan> = base.iter().map(|l| Plan { lens: l.clone(), n: l.bound(tier) }).collect();
@@ -682,7 +686,7 @@ impl Check {
             let lower: String = bytes.iter().map(|b| format!("%{:02x}", b)).collect();
             let raw = c.to_string();
             // leading position of each component (quick: below U+3000 only)
-            let lead: [(&str, &str); 7] = [("pkg:t/", "x"), ("pkg:t/n@", "1"), ("pkg:t/n?k=", "v"), ("pkg:t/n#", "s"), ("pkg:t/", "g/n"), ("pkg:t/n#s/t", ""), ("pkg:t/g", "/n")];
+            let lead: [(&str, &str); 10] = [("p", "g:t/n"), ("", "kg:t/n"), ("pk", ":t/n"), ("pkg:t/", "x"), ("pkg:t/n@", "1"), ("pkg:t/n?k=", "v"), ("pkg:t/n#", "s"), ("pkg:t/", "g/n"), ("pkg:t/n#s/t", ""), ("pkg:t/g", "/n")];
             // quick tier: the six component frames for every scalar value; the positions added later
             // (type, key, algorithm, leading / trailing) for every scalar below U+3000, every cased
             // supplementary-plane script, the boundaries of the UTF-8 lengths and every 257th value beyond
